@@ -18,13 +18,13 @@ func init() {
 	core.Register(&core.Prop{
 		ID:    "C14",
 		Level: "fault_enumeration",
-		Rule: "API-level differential against crypto/ed25519: NewKeyFromSeed, Sign, PrivateKey.Sign (bytes equal) for seeded seeds and messages of length 0..300 and 1 MiB; Verify verdicts on the cross product A in {honest, the 8 small-order points in canonical and non-canonical encodings, y not on the curve, y = p-1, p, p+1, 2^255-1, x = 0 with the sign bit} x R likewise x S in {honest, S+kL, L-1, L, 0, each of the top three bits}, every single-bit flip of an honest (A, msg, sig) triple, 63/65-byte signatures, forged small-order signatures (S = 0, R = -[k]A found by search); histories of 12..22 consecutive Verify calls over related inputs (a key and its negation with signatures valid under each, an invalid key encoding twice in a row signed with the previous key's scalar, one-bit neighbours, small-order keys, exact repeats) with key, message and signature in buffers refilled in place; " +
+		Rule: "API-level differential against crypto/ed25519: NewKeyFromSeed, Sign, PrivateKey.Sign (bytes equal) for seeded seeds and messages of length 0..300 and 1 MiB; Verify verdicts on the cross product A in {honest, the 8 small-order points in canonical and non-canonical encodings, y not on the curve, y = p-1, p, p+1, 2^255-1, x = 0 with the sign bit} x R likewise x S in {honest, S+kL, L-1, L, 0, each of the top three bits}, every single-bit flip of an honest (A, msg, sig) triple, 63/65-byte signatures, forged small-order signatures (S = 0, R = -[k]A found by search); histories of 12..22 consecutive Verify calls over related inputs (a key and its negation with signatures valid under each, an invalid key encoding twice in a row signed with the previous key's scalar, one-bit neighbours, small-order keys, exact repeats) with key, message and signature in buffers refilled in place; valid signatures in special relations (R = A, -A, B, identity, 2A; A = B; message = key, = R, = protocol strings such as the RFC 8032 dom2 prefix); " +
 			"GenerateKey under the same scripted entropy reader on both sides (fault position 0..33 x 4 chunkings, exhaustive): same outputs, same error, same bytes consumed. " +
 			"Operation-level reference model through the verif-tagged hook: scalar reduction of 64 and 32 bytes, clamping, canonical check, MultiplyAdd/Add/Sub/Neg/Mul, the fork's own ModInverse, point decoding (accept set and value), ScalarMult, ScalarBaseMult, VarTimeDoubleScalarBaseMult, point Add/Sub/Neg, each compared with a math/big twisted-Edwards model on limb-boundary operand patterns (21-bit and all 864 combinations of 64-bit limbs in {0, 1, 2^64-1, 2^63, 2^32-1, 2^63+1}), L-1, L, L+1, 2^252+-1, small-order and seeded points. " +
 			"Field level (hooks VerifField*): Add/Subtract/Negate/Multiply/Square/Invert/Absolute/Pow22523/IsNegative/Equal/Mult32/Select/Swap/SqrtRatio and nine expressions with non-canonical intermediates against math/big modulo 2^255-19 on operands whose five 51-bit limbs are each one of {0, 1, 19, 2^50, 2^51-19, 2^51-2, 2^51-1} (every 7th of the 16807 patterns quick, all thorough), encodings p..p+18 with and without bit 255, seeded pairs. " +
 			"distinct_nontrivial = distinct (case class, operand pattern) keys",
 		Floors: []string{"keys_equal_std", "signatures_equal_std", "verify_agree_accept", "verify_agree_reject", "small_order_inputs", "noncanonical_inputs", "s_plus_L_inputs", "forged_small_order_accepted_by_both", "bitflips", "generatekey_same_as_std",
-			"cold_start_verify_agrees", "identity_key_high_s", "hook_scalar_ops", "hook_point_decode", "hook_scalar_mult", "hook_modinverse", "model_agrees_with_std", "hook_limb_pattern_scalars", "hook_field_limb_patterns", "hook_field_noncanonical", "hook_field_seeded", "history_verify_agree_accept", "history_verify_agree_reject"},
+			"cold_start_verify_agrees", "identity_key_high_s", "hook_scalar_ops", "hook_point_decode", "hook_scalar_mult", "hook_modinverse", "model_agrees_with_std", "hook_limb_pattern_scalars", "hook_field_limb_patterns", "hook_field_noncanonical", "hook_field_seeded", "history_verify_agree_accept", "history_verify_agree_reject", "special_relation_signatures", "special_string_messages"},
 		Assumptions: []string{"crypto/ed25519 of the Go toolchain that builds the harness is the reference", "the math/big model is cross-checked against crypto/ed25519 in the same run (class model_agrees_with_std)"},
 		SelfCheck:   []string{"model_disagrees_with_std"},
 		Run:         runC14,
@@ -408,6 +408,7 @@ func runC14(c *core.Ctx) {
 	m.hookOps()
 	m.fieldOps()
 	m.verifyHistories()
+	m.specialRelations()
 }
 
 func canonicalOrSelf(b []byte) []byte {
@@ -864,4 +865,65 @@ func c14LimbScalars() [][]byte {
 		}
 	}
 	return out
+}
+
+// edSignNonce is edSignWith with an explicit nonce scalar r.
+func edSignNonce(a, r *big.Int, pub, msg []byte) []byte {
+	R := ref.EdEncode(ref.EdMul(new(big.Int).Mod(r, ref.EdL), ref.EdB))
+	kh := sha512.Sum512(append(append(clone(R), pub...), msg...))
+	k := new(big.Int).Mod(ref.EdScalarInt(kh[:]), ref.EdL)
+	S := new(big.Int).Mod(new(big.Int).Add(r, new(big.Int).Mul(k, a)), ref.EdL)
+	return append(R, le32(S)...)
+}
+
+// specialRelations: valid signatures whose parts stand in a special relation - R equal to A, to -A, to the base point,
+// to the identity; the secret scalar 1 (A = B); messages that are protocol strings, the key itself, R itself. All are
+// valid under crypto/ed25519 by construction (checked), and a verifier has no reason to treat them differently.
+func (m *c14) specialRelations() {
+	c := m.c
+	n := c.Pick(6, 400)
+	for i := 0; i < n; i++ {
+		if !c.Next() {
+			continue
+		}
+		r := c.CaseRng()
+		seed := r.Bytes(32)
+		h := sha512.Sum512(seed)
+		a := ref.EdClamp(h[:])
+		aL := new(big.Int).Mod(a, ref.EdL)
+		pub := ref.EdPublicFromSeed(seed)
+		one := big.NewInt(1)
+		pubB := ref.EdEncode(ref.EdB)
+		msgs := [][]byte{r.Bytes(r.IntN(40)), {}, clone(pub), append(clone(pub), pub...)}
+		for _, sstr := range SpecialStrings {
+			msgs = append(msgs, []byte(sstr), append([]byte(sstr), r.Bytes(5)...))
+		}
+		for mi, msg := range msgs {
+			cases := map[string][]byte{
+				"R=A(nonce=a)":        edSignNonce(aL, aL, pub, msg),
+				"R=-A(nonce=-a)":      edSignNonce(aL, new(big.Int).Sub(ref.EdL, aL), pub, msg),
+				"R=B(nonce=1)":        edSignNonce(aL, one, pub, msg),
+				"R=identity(nonce=0)": edSignNonce(aL, new(big.Int), pub, msg),
+				"R=2A(nonce=2a)":      edSignNonce(aL, new(big.Int).Lsh(aL, 1), pub, msg),
+				"honest":              stded.Sign(stded.NewKeyFromSeed(seed), msg),
+			}
+			for cls, sig := range cases {
+				m.verify(pub, msg, sig, "special-relation:"+cls, true)
+			}
+			// secret scalar 1: the public key is the base point
+			m.verify(pubB, msg, edSignNonce(one, new(big.Int).SetBytes(r.Bytes(31)), pubB, msg), "special-relation:A=B", true)
+			m.verify(pubB, msg, edSignNonce(one, one, pubB, msg), "special-relation:A=B=R", true)
+			// message equal to R: sign with a fixed nonce, the message being that nonce's R
+			{
+				rn := new(big.Int).SetBytes(r.Bytes(31))
+				R := ref.EdEncode(ref.EdMul(rn, ref.EdB))
+				m.verify(pub, R, edSignNonce(aL, rn, pub, R), "special-relation:message=R", true)
+			}
+			if mi > 3 {
+				c.Class("special_string_messages")
+			}
+		}
+		c.Class("special_relation_signatures")
+		c.Distinctf("special:%d", i)
+	}
 }
